@@ -38,7 +38,9 @@ CHECKS["C10"] = ("Group.tla (brute-force subgroup closure) + TLC: every (subgrou
          "membership, enumeration, order, orbits and growth flag agree with the generated subgroup; permuted copies are equal in the e-graph exactly for group members", "5 C10")
 CHECKS["C16"] = ("Shape.tla (scoped reference shape, occurrence lists) + TLC: records of the derived Language impl for all 3498 enumerated e-nodes judged by TraceShape.tla (impl->spec), global bijection impl-shape <-> reference renaming class",
          "the 11 shape / occurrence / syntax laws hold for every enumerated node of the derived language T", "5 C16")
-NOTES = {"C19": SMALL_NOTE, "C17": SMALL_NOTE, "C10": SMALL_NOTE, "C16": SMALL_NOTE}
+CHECKS["C18"] = ("Parse.tla (tokenizer, total parser, printer) + TLC: all strings <=5/6 tokens and <=5/6 characters as state space with invariants Total/RoundTrip; harness enumerates the same strings against the emitted accepted-language table; TraceParse.tla judges recorded parses of mutated long texts (impl->spec)",
+         "the parser accepts exactly the specification's language with exactly its ASTs, never panics, and print->parse is the identity, on every enumerated string and every recorded mutated text", "5 C18")
+NOTES = {"C19": SMALL_NOTE, "C17": SMALL_NOTE, "C10": SMALL_NOTE, "C16": SMALL_NOTE, "C18": SMALL_NOTE}
 PENDING = {}  # filled below for every property without a check yet
 
 man = {
@@ -49,7 +51,7 @@ man = {
    "enable": "rustflags in /verif/harness/.cargo/config.toml: --cfg slotted_egraphs_verif --check-cfg cfg(slotted_egraphs_verif); the harness depends on /repo by path and patches slotted-egraphs-derive to /repo/slotted-egraphs-derive",
    "baseline_off_cmd": "cd /repo && cargo test --workspace --no-fail-fast --offline",
    "source_commits": ["ec9eabe"],
-   "fix_commits": ["c3020f8", "2a38624", "2db9378"],
+   "fix_commits": ["c3020f8", "2a38624", "2db9378", "9af976a"],
    "add_only": True,
  },
  "engines": [
